@@ -63,6 +63,7 @@ def sources(tier, seed, ctx):
     for j in range(nrand):
         srcs.append({'k': 'rand', 'seed': rng.randrange(10**9), 'n': rng.randint(4, 16), 'from': 'rand'})
     srcs += refusal_matrix()
+    srcs += [{'k': 'shared-gates', 'which': w, 'from': 'scripted'} for w in ('rename', 'replace_inputs', 'into_bench', 'remove')]
     # deep circuits (one path longer than the interpreter's recursion limit) through the copying and the local mutators
     for j, what in enumerate(['copy', 'deepcopy', 'rename', 'add-remove', 'order', 'block']):
         srcs.append({'k': 'deep', 'depth': 1500 if tier == 'quick' else 3000, 'what': what, 'rev': bool(j % 2), 'from': 'deep'})
@@ -192,7 +193,43 @@ def _deep_op(what):
     return f
 
 
+def _shared_gates(src):
+    """Gate objects are values: the same Gate object may be handed to two circuits (add_gate stores what it is given);
+    what is done to one circuit afterwards must leave the other as it was."""
+    from cirbo.core.circuit import Circuit, gate as G
+    from ..project import project as _p
+
+    a, b = Circuit(), Circuit()
+    for c in (a, b):
+        c.add_inputs(['x', 'y'])
+    shared = [G.Gate('g', G.AND, ('x', 'y')), G.Gate('u', G.XOR, ('g', 'x', 'g')), G.Gate('v', G.NOT, ('u',))]
+    for g in shared:
+        a.add_gate(g)
+        b.add_gate(g)
+    a.set_outputs(['v'])
+    b.set_outputs(['v', 'g'])
+    before = _p(b)
+    exc = ''
+    try:
+        if src['which'] == 'rename':
+            a.rename_gate('g', 'renamed')
+        elif src['which'] == 'replace_inputs':
+            a.replace_inputs(['x'], [])
+        elif src['which'] == 'into_bench':
+            a.emplace_gate('w', G.LT, ('g', 'u'))
+            a.into_bench()
+        elif src['which'] == 'remove':
+            a.set_outputs(['u'])
+            a.remove_gate('v')
+    except Exception as e:
+        exc = type(e).__name__
+    return {'kind': 'same', 'what': f'{src["which"]}-in-one-circuit-changed-another-circuit-built-from-the-same-Gate-objects', 'a': before, 'b': _p(b),
+            'exc': exc, 'src': src}
+
+
 def record(src):
+    if src['k'] == 'shared-gates':
+        return _shared_gates(src)
     if src['k'] == 'deep':
         from .. import deep
         return deep.transform_case(PROP, src['what'], src, _deep_op(src['what']))
@@ -211,7 +248,7 @@ def record(src):
 
 
 def nontrivial(case):
-    if case['kind'] == 'transformdeep':
+    if case['kind'] in ('transformdeep', 'same'):
         return True
     return any(s['act']['a'] not in ('add_gate', 'mark_as_output') for s in case['steps'])
 
@@ -219,6 +256,8 @@ def nontrivial(case):
 def features(case):
     if case['kind'] == 'transformdeep':
         return {'deep:' + case['what']}
+    if case['kind'] == 'same':
+        return {'shared-gate-objects'}
     seen = set()
     for s in case['steps']:
         a = s['act']
